@@ -53,6 +53,10 @@ CHECKS = {
             "Views-never-raise + engine-still-runs monitors on real gateways (file-sourced, fed through the real transport's receive function, and a port gateway on a fake serial port with sending enabled) over packet histories derived from the recorded logs by deletion, duplication, windowed reordering, splicing with other systems' / HVAC / binding logs and field mutation inside the schema regexes (extreme values), eavesdropping on/off: every public view of the gateway and of each device/system/zone/DHW is read every k-th packet; get_state() and _restore_cached_packets() (own snapshot, corrupted snapshot, restored twice, cancelled half-way) are invoked at seeded points and - returned or raised - must leave the engine as found (not paused, same handler, same read-only and discovery flags), a marker packet put on the wire afterwards must be handled end-to-end and a command must reach the serial port; after foreign traffic the known controller must still be a system, keep its zones and report a fresh zone temperature.",
             "Histories are re-timed to increasing unique timestamps; the marker is a 30C9 from a thermostat id no log uses; exceptions reaching the loop handler from deferred entity handlers are recorded, not judged; the port gateway runs with the library's own duty-cycle debug switch on (C11's subject).",
             "views-never-raise / engine-state / marker-packet monitors over mutated real histories", "§3 C13"),
+    "C14": ("exploration",
+            "Expiry-threshold monitor on the real Message._expired under a controlled clock (every I/RP message kind of the log corpus with its lifetime from a committed table, 1F09 countdowns 0..6553.5 s: never expired before L, always at 2L+3 s+eps and later, never un-expiring, on fresh and re-used message objects), plus a reference last-writer model on a real port Gateway under a virtual clock: seeded interleavings of per-zone and array forms of 30C9/2309/2349/000A/12B0, DHW 10A0/1F41, 2E04, 3150|FC, 0008|FC, TRV 30C9/3150, DHW-sensor 1260, relay 3EF0 across 1-12 zones; every attribute the model knows is compared after every packet; then the clock is advanced to L-eps (value must still be reported) and to 2L+3 s+eps of each attribute's newest message (must read as unknown).",
+            "Lifetimes per kind come from a committed, reviewed table generated from the reference tree; frames are built by the harness from values; one recorded finding (first read after expiry still returns the expired value).",
+            "threshold sweep on a controlled clock + reference-model (last-writer) monitor + ageing monitor on a virtual clock", "§3 C14"),
     "C15": ("exploration",
             "Schema validity / reload / graph monitors on real gateways over packet histories derived from the recorded logs (delete, duplicate, reorder, splice, field mutation, conflicting zone claims, zone updates) with eavesdropping on/off and max_zones 1..16: at every k-th packet the reported schema must be accepted by SCH_GLOBAL_SCHEMAS, list no device under two zones / two controllers and no zone index >= max_zones, and the live object graph must be symmetric (child in parent.childs <=> child._parent is parent, a zone's sensor belongs to that zone); after every packet no device may have changed parent or controller; at seeded prefixes a fresh Gateway(**schema) must load and reproduce the controllers, zones (class, sensor, actuators), hot-water subsystem and appliance control. Generated validator-accepted, consistent schemas (1-3 controllers, 0-12 zones, all classes / sensor types incl. the controller, 0-8 actuators, DHW parts, relay/OTB appliance control, UFH controllers, orphans) are loaded as configuration and put through the same monitors.",
             "Re-load comparison limited to the items the statement lists (orphans, UFH circuits and content-less zones are not compared); generated schemas use each device once; one recorded finding (controller-level 'orphans' lists cannot be loaded).",
